@@ -38,13 +38,16 @@ PLACEMENTS = ["decl", "sub", "override", "chain_camel", "after_lower", "split"]
 KINDS = [None, "ref", "arr", "set"]
 
 
-def inj_maps(fields, fresh):
-    """every assignment field -> (unmapped | a field name | a fresh key) whose final keys are
-    pairwise distinct"""
-    targets = [None] + list(fields) + list(fresh)
+DONOT = "<DoNotSerialize>"
+
+
+def inj_maps(fields, fresh, donot=True):
+    """every assignment field -> (unmapped | a field name | a fresh key | DoNotSerialize, at most once)
+    whose final keys are pairwise distinct (a dropped field has none: its name is free for a sibling)"""
+    targets = [None] + list(fields) + list(fresh) + ([DONOT] if donot else [])
     for combo in itertools.product(targets, repeat=len(fields)):
-        finals = [t if t is not None else f for f, t in zip(fields, combo)]
-        if len(set(finals)) == len(finals):
+        finals = [t if t is not None else f for f, t in zip(fields, combo) if t != DONOT]
+        if len(set(finals)) == len(finals) and sum(t == DONOT for t in combo) <= 1:
             yield combo
 
 
@@ -81,7 +84,9 @@ def nested_value(uid, kind, falsy, k):
 
 def build(uid, fields, kinds, combo, placement, decl_idx, falsy=False, sub_entry=None, k=0):
     """one lattice case.  decl_idx: index into NESTED_DECLS for each field (ignored for scalars)"""
-    entries = [[f, ["key", t]] for f, t in zip(fields, combo) if t is not None]
+    if placement == "override" and DONOT in combo:
+        placement = "decl"      # the wrappers' mapper field admits str / FunctionCall / dict values only
+    entries = [[f, ["donot"] if t == DONOT else ["key", t]] for f, t in zip(fields, combo) if t is not None]
     fs = []
     x = []
     types = {}
@@ -114,7 +119,7 @@ def build(uid, fields, kinds, combo, placement, decl_idx, falsy=False, sub_entry
         for f, kd, t in zip(fields, kinds, combo):
             if kd is not None:
                 # (an explicit wrapper mapper must name fields: there the entry is always keyed by the field)
-                nm = f if sub_entry == "field" or t is None or placement == "override" else t
+                nm = f if sub_entry == "field" or t is None or t == DONOT or placement == "override" else t
                 entries.append([nm + SUFFIX, ["sub", [["p", ["key", "pp"]], ["u_x", ["key", "ux"]]]]])
                 break
     override = None
@@ -136,6 +141,8 @@ def build(uid, fields, kinds, combo, placement, decl_idx, falsy=False, sub_entry
     else:  # split: the first entry is declared by the base class, the rest by the subclass, keyed by current keys
         first, rest = entries[:1], entries[1:]
         cur = {e[0]: e[1][1] for e in first if e[1][0] == "key"}
+        if any(e[1][0] == "donot" for e in first):
+            rest = []
         rest2 = [[kk, v] for kk, v in rest]
         ok = not any(kk in cur.values() or kk in cur for kk, _ in rest2)
         if not (first and rest2 and ok):
@@ -176,6 +183,8 @@ def sibling_cases(rnd, tier):
                 continue
             pls = PLACEMENTS if tier != "quick" else [PLACEMENTS[k % len(PLACEMENTS)],
                                                       PLACEMENTS[(k // len(PLACEMENTS) + 3) % len(PLACEMENTS)]]
+            if tier == "quick" and DONOT in combo:
+                pls = pls[:1]
             for pl in dict.fromkeys(pls):
                 se = "all" if (k % 4 == 1 and all(kd is not None for kd in kinds)) else None
                 c = build(uid, f2, kinds, combo, pl, pairs2[k % len(pairs2)], sub_entry=se, k=k)
